@@ -122,8 +122,13 @@ func gen1(t *rapid.T) Case {
 		}
 		c.Inputs = append(c.Inputs, string(long))
 	}
+	if len(c.Inputs) > 0 && rapid.Bool().Draw(t, "again") {
+		// the same input once more: the second call runs on an interpreter state whose stack the first call
+		// already grew (possibly to the limit), and must come to the same verdict
+		c.Inputs = append(c.Inputs, c.Inputs[rapid.IntRange(0, len(c.Inputs)-1).Draw(t, "againwhich")])
+	}
 	set := map[int]bool{0: true, 1: true, 2: true, 63: true, 64: true, 65: true, 100: true, 128: true, 256: true, 1000: true, 100000: true}
-	for i := 0; i < 8; i++ {
+	for i := 0; i < 12; i++ {
 		set[rapid.IntRange(0, 200).Draw(t, "L")] = true
 	}
 	for l := range set {
